@@ -784,6 +784,17 @@ def _coincidence() -> list[dict]:
                             cases.append({'kind': f'coincidence:{mode}:{a[0]}+{b[0]}:gap{gap}', 'mode': mode,
                                           'lookup': lookup, 'srvFail': 0, 'typ': 'PFD'[gap % 3], 'prefer': gap % 2,
                                           'ports': [2234, 2235], 'ops': head + [['pair', a, b, gap]] + tail})
+        # any completion and the cancellation of the request 0..9 loop iterations later: the request is cancelled in
+        # the very iteration in which an attempt finished, while the race is gathering the loser, while it is
+        # disconnecting a second winner (fixes/C11-race-cancel-orphan.md)
+        for pre in ([[]] if mode == 'race' else [[], [['connectRefused']]]):
+            for first in ENV_OPS[:-1]:
+                for gap in range(10):
+                    for lookup in ((0, 1) if gap < 3 else (0,)):
+                        head = ([['addrReply', 'valid']] if lookup else []) + pre
+                        cases.append({'kind': f'coincidence:{mode}:{first[0]}+cancelRequest:gap{gap}', 'mode': mode,
+                                      'lookup': lookup, 'srvFail': 0, 'typ': 'PFD'[gap % 3], 'prefer': gap % 2,
+                                      'ports': [2234, 2235], 'ops': head + [['pair', list(first), ['cancelRequest'], gap]] + LATE})
         # two outcomes of the same kind of waiter, and three-way: CannotConnect + timeout + pierce
         for gap in range(4):
             pre = [['connectRefused']] if mode == 'fallback' else []
